@@ -663,6 +663,12 @@ Theorem C09_newblock_refines_model : forall C B A, 2 <= C -> forall w p hd bf bc
 Proof. exact PoolBlkRefine.newblock_refines. Qed.
 Print Assumptions C09_newblock_refines_model.
 
+(* the hypotheses Rel / PreInit of the refinement theorem are satisfiable (initial world, cells of buffer 1 pre-initialised) *)
+Theorem C09_newblock_refinement_hypotheses_satisfiable : forall C B A,
+  exists w p hd bf bcnt nx nfi, PoolBlkRefine.Rel B A w p hd bf bcnt nx nfi /\ PoolBlkRefine.PreInit C B A w bf bcnt nx nfi.
+Proof. exact PoolBlkRefine.rel_nonvacuous. Qed.
+Print Assumptions C09_newblock_refinement_hypotheses_satisfiable.
+
 Theorem C09_newblock_refusal_matches_model : forall C B A, 2 <= C -> forall w p hd bf bcnt nx pv nfi,
   PoolBlkRefine.Rel B A w p hd bf bcnt nx nfi -> PoolBlkRefine.PreInit C B A w bf bcnt nx nfi ->
   Gen_MemPoolBlk.pvNewBlock (PoolConc.fresh w) B A hd bf bcnt nx pv nfi true =
@@ -794,6 +800,12 @@ Theorem C09_u32_step_preserves_freelist_inv : forall bc bs M, 1 <= bc -> 4 <= bs
   exists s', PoolU32List.step bc bs M s o = Some s' /\ PoolU32List.Inv bc bs M s'.
 Proof. exact PoolU32List.step_Inv. Qed.
 Print Assumptions C09_u32_step_preserves_freelist_inv.
+
+(* the free-list invariant holds in the state the constructor establishes (no buffer, null head, count 0) *)
+Theorem C09_u32_freelist_inv_initial : forall bc bs M, 0 <= M /\ M * bc <= 4294967294 ->
+  forall b m, PoolU32List.Inv bc bs M (PoolU32List.init b m).
+Proof. exact PoolU32List.Inv_init. Qed.
+Print Assumptions C09_u32_freelist_inv_initial.
 
 Theorem C09_u32_freelist_inv_all_histories : forall bc bs M, 1 <= bc -> 4 <= bs -> bc * bs < 2 ^ 63 -> 0 <= M /\ M * bc <= 4294967294 ->
   forall b m os s, PoolU32List.runs bc bs M (PoolU32List.init b m) os s -> PoolU32List.Inv bc bs M s.
